@@ -49,6 +49,10 @@ def assemble(stmts, term):
             n["cfg"] = dict(n["cfg"], fail=True)      # an added call of it has no recorded outcome: missing-key error, handled too
             n["next"] = {"k": "ret", "e": {"lit": pv.none()}}
             c = {"k": "try", "c": n, "h": c}
+        elif n.pop("thread", False):
+            # the call is made by a worker thread that the operation starts and joins at this point
+            n["next"] = {"k": "ret", "e": {"lit": pv.none()}}
+            c = {"k": "spawn", "c": n, "next": c}
         else:
             n["next"] = c
             c = n
@@ -80,6 +84,14 @@ def rand_program(rng):
         st = out_stmt(rng, "boom", rng.random() < 0.5, "none")
         st["raises"] = True
         stmts.insert(rng.randrange(len(stmts) + 1), st)
+    if rng.random() < 0.3:
+        # some of the output calls are made from worker threads (started and joined by the operation, one at a time)
+        for st in stmts:
+            if st["k"] == "out" and not st.get("raises") and rng.random() < 0.4:
+                st["thread"] = True
+    if rng.random() < 0.2:
+        # forced sampling requested part-way through the operation (matters when the sampling rate is below 1)
+        stmts.insert(rng.randrange(1, len(stmts) + 1), {"k": "force"})
     term = {"k": "ret", "e": {"lit": pv.rand_pyval(rng, 1, objs=False)}} if rng.random() < 0.8 else {"k": "raise", "ty": "ValueError"}
     return stmts, term, kinds
 
@@ -128,7 +140,11 @@ def generate(rng, tier):
             s2, t2, kind = edit(rng, stmts, term, kinds)
             Pp = assemble(s2, t2)
         P = with_extractor(rng, P)
-        runs = [dict(kind="record", enabled=True, prm=PRM, op=P, save_fails=False)]
+        prm, draws = PRM, []
+        if any(st["k"] == "force" for st in stmts):
+            # the draw alone would drop the recording: it is kept only because sampling was forced on the way
+            prm, draws = dict(PRM, rate=rng.choice([[0, 1], [1, 4], [1, 1]])), [[1, 2]] * 6
+        runs = [dict(kind="record", enabled=True, prm=prm, op=P, save_fails=False)]
         if rng.random() < 0.3:
             # first a replay of code that makes an ADDED output call whose result must not be invented: it aborts with
             # RecordingKeyError after some outputs were already captured; the next replay must be unaffected
@@ -140,7 +156,7 @@ def generate(rng, tier):
             runs.append(dict(kind="play", target=0, pf={"kind": "op", "op": assemble(s3, rd.clean(term))}, enabled=False,
                              aborting=True))
         runs.append(dict(kind="play", target=0, pf={"kind": "op", "op": Pp}, enabled=rng.random() < 0.5))
-        cases.append(dict(draws=[], runs=runs, cassette="memory", edit=kind, unshare=True))
+        cases.append(dict(draws=draws, runs=runs, cassette="memory", edit=kind, unshare=True))
     return cases
 
 
@@ -164,7 +180,9 @@ def expected_outputs(op, outcome):
                 exp["output: %s #%d.output" % (al, cnt[al])] = d
             c = c["h"]
             continue
-        if c["k"] == "out":
+        o = c["c"] if c["k"] == "spawn" else c           # (a worker thread making one output call)
+        if o["k"] == "out":
+            c_, c = c, o
             al = c["cfg"]["alias"]
             cnt[al] = cnt.get(al, 0) + 1
             args = [pv.canon_json(e["lit"]) for e in c["args"]]
@@ -174,6 +192,7 @@ def expected_outputs(op, outcome):
             else:
                 d = {"d": "out", "args": args, "kwargs": kwargs}
             exp["output: %s #%d.output" % (al, cnt[al])] = d
+            c = c_
         if "next" not in c:
             break
         c = c["next"]
